@@ -68,6 +68,9 @@ structure St where
   nextObj : Obj
   /-- the value objects that are not strings (and not None) -/
   nonStr : List Obj := []
+  /-- value objects that are references with nothing to deliver yet (a `param.depends` function that
+  raises `param.Skip`): given to an `allow_refs` parameter they install a link and store nothing -/
+  silent : List Obj := []
   deriving Repr, DecidableEq
 
 inductive Res
@@ -277,7 +280,9 @@ def applyKw (s : St) (c : CId) : List (Name Ã— Obj) â†’ List (Name Ã— Obj) â†’ E
       match s.heap[p]? with
       | none => .error .stuck
       | some q =>
-        if rejects s q v then .error .valueError
+        -- `pobj.allow_refs`: `_resolve_ref` finds a reference whose value is `Undefined` (Skip): no `setattr`
+        if q.allowRefs && s.silent.contains v then applyKw s c kw vals
+        else if rejects s q v then .error .valueError
         else if q.readonly then .error .typeError else applyKw s c kw (aset vals n v)
 
 /-! ### `edit_constant` -/
@@ -475,8 +480,9 @@ def declare (npool : Nat) (s : St) (d : List CId Ã— List (Name Ã— Bool Ã— Bool Ã
 /-- the state after all class statements of a history; value objects `0 â€¦ npool-1` are the pool,
 `npool + c` the class names, the following ones generated instance names -/
 def initState (npool : Nat) (decls : List (List CId Ã— List (Name Ã— Bool Ã— Bool Ã— Obj Ã— Bool)))
-    (nonStr : List Obj := []) : St :=
-  { decls.foldl (declare npool) { heap := [], classes := [], insts := [], nextObj := 0, nonStr := nonStr } with
+    (nonStr : List Obj := []) (silent : List Obj := []) : St :=
+  { decls.foldl (declare npool) { heap := [], classes := [], insts := [], nextObj := 0, nonStr := nonStr,
+                                  silent := silent } with
     nextObj := npool + decls.length }
 
 /-! ### Flags as seen from an instance / a class -/
